@@ -1,21 +1,83 @@
 package main
 
 import (
+	"flag"
 	"fmt"
 	"os"
+	"sort"
 	"time"
 
 	"qverif/core"
+	"qverif/engine"
+	"qverif/spec"
 )
 
 func main() {
+	if len(os.Args) < 2 {
+		fmt.Println("usage: qverif ops|check ...")
+		os.Exit(2)
+	}
+	switch os.Args[1] {
+	case "ops":
+		opsCmd(os.Args[2:])
+	default:
+		fmt.Println("unknown command")
+		os.Exit(2)
+	}
+}
+
+func opsCmd(args []string) {
+	fs := flag.NewFlagSet("ops", flag.ExitOnError)
+	m := fs.String("m", "", "method")
+	repo := fs.String("repo", "/repo", "repo")
+	thorough := fs.Bool("thorough", false, "")
+	verbose := fs.Bool("v", false, "")
+	fs.Parse(args)
 	t0 := time.Now()
-	p, err := core.Load("/repo")
+	p, err := core.Load(*repo)
 	if err != nil {
 		fmt.Println("load error:", err)
 		os.Exit(2)
 	}
-	fmt.Println("pkgs", len(p.Pkgs), "funcs", len(p.AllFunctions()), "modfuncs", len(p.ModuleFunctions()), time.Since(t0))
-	g := p.VTA()
-	fmt.Println("vta nodes", len(g.Nodes), time.Since(t0))
+	a, err := spec.ResolveAnchors(p)
+	if err != nil {
+		fmt.Println("anchors:", err)
+		os.Exit(2)
+	}
+	e := engine.NewOpEngine(p, a)
+	b := engine.QuickBounds()
+	if *thorough {
+		b = engine.ThoroughBounds()
+	}
+	calls := e.Instances(*m, b)
+	fmt.Println("instances", len(calls), "load", time.Since(t0))
+	for _, c := range calls {
+		nb := len(e.Findings)
+		t1 := time.Now()
+		p0 := e.Paths
+		e.RunInstance(c)
+		if *verbose {
+			fmt.Printf("  %-60s paths=%d findings=%d %v\n", c.Label, e.Paths-p0, len(e.Findings)-nb, time.Since(t1))
+		}
+	}
+	seen := map[string]int{}
+	var keys []string
+	first := map[string]engine.Finding{}
+	for _, f := range e.Findings {
+		k := f.Rule + "|" + f.Construct + "|" + f.What
+		if f.Undecided {
+			k = "UNDECIDED " + k
+		}
+		if seen[k] == 0 {
+			keys = append(keys, k)
+			first[k] = f
+		}
+		seen[k]++
+	}
+	sort.Strings(keys)
+	for _, k := range keys {
+		f := first[k]
+		fmt.Printf("%s  x%d\n    %s %s\n    witness: %s\n", k, seen[k], f.Pos, f.Detail, f.Witness)
+	}
+	fmt.Printf("paths=%d closures=%d shape=%d vjp=%d fin=%d state=%d funcs=%d wall=%v\n", e.Paths, e.ClosureRuns, e.ShapeChecks, e.VJPChecks, e.FinChecks, e.StateChecks, len(e.Funcs), time.Since(t0))
 }
